@@ -601,6 +601,68 @@ fn gen_hs_retry_light(run: &mut Run, prop: &str, seed: u64, thorough: bool) {
     }
 }
 
+
+/// C06, hostile peer: the remote ephemeral is a low-order X25519 point, so `DH(e, re)` is the same (all-zero) value
+/// for every fresh local ephemeral. A write that fails after the `s` field was encrypted, followed by the retry (fresh
+/// ephemeral, as the property demands), then derives the same key again and encrypts `s` under (key, nonce 0) with a
+/// different handshake hash as associated data. Recorded as known finding KF3.
+fn gen_low_order(run: &mut Run, seed: u64) {
+    let mut r = Rng64(seed ^ 0x6c6f77);
+    let points: [[u8; 32]; 2] = [[0u8; 32], {
+        let mut p = [0u8; 32];
+        p[0] = 1;
+        p
+    }];
+    for name in ["Noise_XX_25519_ChaChaPoly_SHA256", "Noise_NX_25519_AESGCM_BLAKE2s"] {
+        for re in &points {
+            let mut sc = Sc::new();
+            sc.ex.comment(&format!("low-order remote ephemeral {name}"));
+            let spec = BuildSpec {
+                name: name.into(),
+                initiator: false,
+                resolver: "default".into(),
+                s: Some(r.bytes(32)),
+                e: None,
+                rs: None,
+                psks: vec![],
+                prologue: None,
+                rng: r.bytes(128),
+            };
+            if !sc.ex.build(2, &spec).is_ok() {
+                continue;
+            }
+            let o = sc.ex.hs_read(2, re, 64);
+            sc.check_panic(&o, "hs_read low-order e");
+            if !o.is_ok() {
+                continue;
+            }
+            let mut seen: std::collections::BTreeMap<(Vec<u8>, u64), (Vec<u8>, Vec<u8>)> = std::collections::BTreeMap::new();
+            let mut reuse = false;
+            // message 2 = e (32) + s (48) + payload (4 + 16): a 90-byte buffer holds `e` and `s` but not the payload
+            for cap in [90usize, 300] {
+                let o = sc.ex.hs_write(2, b"abcd", cap);
+                sc.check_panic(&o, "hs_write");
+                for e in &sc.ex.last_events.clone() {
+                    if let crate::toy::Ev::Enc { key, n, ad, pt } = e {
+                        match seen.get(&(key.clone(), *n)) {
+                            Some((a0, p0)) if a0 != ad || p0 != pt => reuse = true,
+                            Some(_) => {},
+                            None => {
+                                seen.insert((key.clone(), *n), (ad.clone(), pt.clone()));
+                            },
+                        }
+                    }
+                }
+            }
+            sc.count("c06.low_order_remote_ephemeral");
+            if reuse {
+                sc.viol("C06", format!("{name}: (key, nonce) pair reused on different associated data after a failed write when the peer's ephemeral is a low-order X25519 point (the DH output does not depend on the fresh local ephemeral)"));
+            }
+            run.add("hs", format!("C06 low-order remote ephemeral {name}"), sc);
+        }
+    }
+}
+
 /// C16: many threads share one stateless session.
 fn gen_threads(run: &mut Run, seed: u64, thorough: bool) {
     use std::sync::Arc;
@@ -693,6 +755,9 @@ fn run_prop(prop: &str, thorough: bool, seed: u64) -> Run {
         "C06" | "C07" => {
             gen_hs(&mut run, prop, seed, thorough);
             gen_transport(&mut run, prop, seed, thorough);
+            if prop == "C06" {
+                gen_low_order(&mut run, seed);
+            }
         },
         "C08" => gen_mismatch(&mut run, seed, thorough),
         "C10" => {
